@@ -163,6 +163,15 @@ pub fn reset() {
     gl.max_live.store(0, Ordering::SeqCst);
     gl.reentered.store(false, Ordering::SeqCst);
     *lock(&gl.panic_at) = None;
+    COUNT_ONLY.store(false, Ordering::SeqCst);
+    for c in STAGE_COUNTS.iter() {
+        c.store(0, Ordering::SeqCst);
+    }
+    SRC_CTOR.store(0, Ordering::SeqCst);
+    *lock(&RED_PANIC) = None;
+    lock(&RUN_PHASES).clear();
+    RED_COUNT.store(0, Ordering::SeqCst);
+    RED_FIRED.store(false, Ordering::SeqCst);
     let _ = tid(); // caller = 0
 }
 
@@ -170,10 +179,38 @@ pub fn set_phase(p: usize) {
     g().phase.store(p, Ordering::SeqCst);
 }
 
+/// count-only mode (very long sources): closure calls are counted per stage, not logged
+pub static COUNT_ONLY: AtomicBool = AtomicBool::new(false);
+pub static STAGE_COUNTS: [AtomicUsize; 8] = [
+    AtomicUsize::new(0), AtomicUsize::new(0), AtomicUsize::new(0), AtomicUsize::new(0),
+    AtomicUsize::new(0), AtomicUsize::new(0), AtomicUsize::new(0), AtomicUsize::new(0),
+];
+/// source elements the instrumented iterator yielded while the computation was being built
+pub static SRC_CTOR: AtomicUsize = AtomicUsize::new(0);
+/// injected panic of the reduce operator: (0, k) = its k-th call, (1, _) = any call on the calling thread
+pub static RED_PANIC: Mutex<Option<(u8, usize)>> = Mutex::new(None);
+/// for every run of the runner: was the computation still being built (0) or inside the terminal (1)
+pub static RUN_PHASES: Mutex<Vec<u8>> = Mutex::new(vec![]);
+pub static RED_COUNT: AtomicUsize = AtomicUsize::new(0);
+/// microseconds every evaluation of the first stage takes (so that all workers take part)
+pub static DELAY_US: AtomicUsize = AtomicUsize::new(0);
+pub static RED_FIRED: AtomicBool = AtomicBool::new(false);
+
 pub fn log_call(stage: usize, arg: i64) {
+    if COUNT_ONLY.load(Ordering::Relaxed) {
+        let n = STAGE_COUNTS[stage.min(7)].fetch_add(1, Ordering::Relaxed);
+        if n > 400_000_000 {
+            panic!("runaway evaluation of a very long source");
+        }
+        return;
+    }
     if stage == 2 {
         // the first stage of the chain is evaluated once per source element: a yield point
         sched::yield_at_element();
+        let d = DELAY_US.load(Ordering::Relaxed);
+        if d > 0 {
+            std::thread::sleep(std::time::Duration::from_micros(d as u64));
+        }
     }
     let gl = g();
     let t = tid();
@@ -197,6 +234,9 @@ pub fn install_sink() {
             }
             Event::WorkerEnd => {
                 gl.live.fetch_sub(1, Ordering::SeqCst);
+            }
+            Event::RunBegin { .. } => {
+                lock(&RUN_PHASES).push(gl.phase.load(Ordering::SeqCst) as u8);
             }
             _ => {}
         }
@@ -473,9 +513,24 @@ pub fn mk_red_sel<T: AsI64>(id: usize, o: RedOp) -> impl Fn(T, T) -> T + Clone +
 pub static RED_THREADS: Mutex<Vec<usize>> = Mutex::new(vec![]);
 fn note_red(_id: usize) {
     let t = tid();
-    let mut r = lock(&RED_THREADS);
-    if !r.contains(&t) {
-        r.push(t);
+    {
+        let mut r = lock(&RED_THREADS);
+        if !r.contains(&t) {
+            r.push(t);
+        }
+    }
+    let k = RED_COUNT.fetch_add(1, Ordering::SeqCst);
+    let p = *lock(&RED_PANIC);
+    match p {
+        Some((0, n)) if n == k => {
+            RED_FIRED.store(true, Ordering::SeqCst);
+            panic!("injected panic in the reduce operator (call {})", k);
+        }
+        Some((1, _)) if t == 0 => {
+            RED_FIRED.store(true, Ordering::SeqCst);
+            panic!("injected panic in the reduce operator on the calling thread");
+        }
+        _ => {}
     }
 }
 
@@ -512,6 +567,9 @@ impl Iterator for Src {
         lock(&g().src_calls).push((t, self.calls));
         self.calls += 1;
         let r = self.data.next();
+        if r.is_some() && g().phase.load(Ordering::SeqCst) == 0 {
+            SRC_CTOR.fetch_add(1, Ordering::SeqCst);
+        }
         self.inside.store(false, Ordering::SeqCst);
         r
     }
@@ -522,6 +580,18 @@ impl Iterator for Src {
         } else {
             (0, None)
         }
+    }
+}
+
+/// hides the length of an iterator
+pub struct Unk<I>(pub I);
+impl<I: Iterator> Iterator for Unk<I> {
+    type Item = I::Item;
+    fn next(&mut self) -> Option<I::Item> {
+        self.0.next()
+    }
+    fn size_hint(&self) -> (usize, Option<usize>) {
+        (0, None)
     }
 }
 
@@ -597,6 +667,11 @@ pub struct Case {
     pub pid: usize,
     /// elements taken from a concurrent-iterator source before it is turned into a parallel iterator
     pub pre: usize,
+    /// length of the very long range source (count-only mode)
+    pub big: usize,
+    /// injected panic of the reduce operator
+    pub rpanic: Option<(u8, usize)>,
+    pub delay_us: usize,
 }
 
 /// a deque whose ring buffer is wrapped: the first half sits at the end of the allocation
@@ -753,6 +828,17 @@ pub fn parse_case(line: &str) -> Case {
         trail,
         pid: n_ops,
         pre: f.get("pre").map(|x| x.parse().unwrap()).unwrap_or(0),
+        big: f.get("big").map(|x| x.parse().unwrap()).unwrap_or(0),
+        delay_us: f.get("delay").map(|x| x.parse().unwrap()).unwrap_or(0),
+        rpanic: f.get("rpanic").and_then(|s| {
+            if *s == "caller" {
+                Some((1u8, 0usize))
+            } else if let Some(k) = s.strip_prefix("n:") {
+                Some((0u8, k.parse().unwrap()))
+            } else {
+                None
+            }
+        }),
         macro_sched: if f.get("macro").map(|x| *x == "1").unwrap_or(false) {
             Some(if f["sched"] == "-" {
                 vec![]
@@ -930,7 +1016,7 @@ pub fn observations() -> String {
         bursts.iter().map(|(t, n)| format!("{}x{}", t, n)).collect::<Vec<_>>().join(",")
     };
     format!(
-        "clog={} calls={} tcalls={} threads={} ctor_threads={} runs={} maxlive={} redthreads={} reentered={} srccalls={} bursts={} endless={}",
+        "clog={} calls={} tcalls={} threads={} ctor_threads={} runs={} maxlive={} redthreads={} reentered={} srccalls={} bursts={} endless={} srcctor={} redfired={} ncalls={} runphases={}",
         fmt_calls(0),
         calls,
         tcalls,
@@ -942,7 +1028,14 @@ pub fn observations() -> String {
         gl.reentered.load(Ordering::SeqCst) as u8,
         src.len(),
         bursts_s,
-        ENDLESS_CALLS.load(Ordering::SeqCst)
+        ENDLESS_CALLS.load(Ordering::SeqCst),
+        SRC_CTOR.load(Ordering::SeqCst),
+        RED_FIRED.load(Ordering::SeqCst) as u8,
+        STAGE_COUNTS.iter().map(|c| c.load(Ordering::SeqCst).to_string()).collect::<Vec<_>>().join("/"),
+        {
+            let p = lock(&RUN_PHASES);
+            if p.is_empty() { "-".to_string() } else { p.iter().map(|x| x.to_string()).collect::<Vec<_>>().join("/") }
+        }
     )
 }
 
